@@ -58,6 +58,17 @@ def gen_cases(rng, tier):
     for nd in (start, end):
       if nd["name"] in ("buck", "bornmayer"):
         nd["p"][1] = abs(nd["p"][1]) + 0.1
+    if i % 9 in (3, 4):
+      # detach / r_min / attach given as whole numbers of type int ('>1 buck4_spline 2 >3'): same numbers, another type
+      rd = rng.choice([1, 2])
+      if kind == "exp_spline":
+        ra, rmin = rd + rng.choice([1, 2]), None
+      else:
+        rmin = rd + 1
+        ra = rmin + rng.choice([1, 2])
+      for nd in (start, end):
+        if nd["name"] == "zbl":
+          nd["name"], nd["p"] = "bornmayer", [500.0, 0.4]
     unit = None
     if i % 7 == 5:
       # the same model in another energy unit (Joules: 1.6e-19; or something huge): the spline problem is linear
@@ -88,6 +99,8 @@ def gen_cases(rng, tier):
     rm = round(rd + spec.rfloat(rng, 0.3, 0.9, 2), 3)
     ra = round(rm + spec.rfloat(rng, 0.3, 1.0, 2), 3)
     A, C = spec.rfloat(rng, 100.0, 9000.0), spec.rfloat(rng, 0.5, 120.0)
+    if i % 6 == 2:
+      rd, rm, ra = 1, 2, rng.choice([3, 4])      # whole-number radii of type int
     unit = None
     if i % 5 == 3:
       unit = rng.choice([-25, -19, -16, -12, 9, 15])
@@ -199,6 +212,8 @@ def run_case(case, ctx):
     return run_buck4(case, ctx)
   node = case["node"]
   ctx.cls("kind:" + node["kind"])
+  if all(isinstance(node.get(k_), int) for k_ in ("rd", "ra")):
+    ctx.cls("radii_of_type_int")
   if case.get("unit") is not None:
     ctx.cls("energy_unit_scaled:1e%d" % case["unit"])
   M = R.Model()
